@@ -147,28 +147,22 @@ def get_type_graph(t: type) -> graphlib.TopologicalSorter[TypeNode]:
             # We detected a cyclic type,
             #   wrap in a ForwardRef and don't add it to the stack
             #   This will terminate this edge to prevent infinite cycles.
-            if is_visited and is_subscripted and child is unwrapped:
-                # The name of a generic says nothing of its arguments (`list[Node]` is not `list`):
-                #   flag the annotation itself instead of a reference to it.
+            if is_visited and can_be_cyclic and not inspect.isclass(child):
+                # Only a class is known by its name alone: `list[Node]` is not `list`, and
+                #   `Node | None`, `Final[Node]` or a `NewType` of `Node` are no names to ask for.
+                #   Flag the annotation itself; it is resolved when it is first needed.
                 node = TypeNode(type=child, unwrapped=unwrapped, var=var, cyclic=True)
             elif is_visited and can_be_cyclic:
-                qualname = inspection.qualname(child)
-                is_class = inspect.isclass(child)
+                # A class' qualified name never includes its module,
+                #   the dots in it are the enclosing classes.
+                refname = inspection.qualname(child)
+                module = getattr(child, "__module__", None)
                 is_argument = var is not None
-                if is_class:
-                    # A class' qualified name never includes its module,
-                    #   the dots in it are the enclosing classes.
-                    refname, module = qualname, getattr(child, "__module__", None)
-                else:
-                    *rest, refname = qualname.split(".", maxsplit=1)
-                    module = ".".join(rest) or getattr(child, "__module__", None)
-                    if module in (None, "__main__") and rest:
-                        module = rest[0]
                 ref = refs.forwardref(
-                    refname, is_argument=is_argument, module=module, is_class=is_class
+                    refname, is_argument=is_argument, module=module, is_class=True
                 )
                 uref = refs.forwardref(
-                    unwrapped, is_argument=is_argument, module=module, is_class=is_class
+                    unwrapped, is_argument=is_argument, module=module, is_class=True
                 )
                 node = TypeNode(ref, uref, var=var, cyclic=True)
             # Otherwise, add the type to the stack and track that it's been seen.
